@@ -58,11 +58,20 @@ def onehot_init(rng, lead, K, N, blur=0.0):
     return oh, lab
 
 
+def skewed_labels(rng, lead, K, N):
+    """class labels with class proportions that differ from slice to slice (Dirichlet(2) per slice)"""
+    lab = np.empty((*lead, N), dtype=int)
+    for idx in np.ndindex(*lead):
+        p = rng.dirichlet([2.0] * K)
+        lab[idx] = rng.choice(K, size=N, p=p)
+    return lab
+
+
 def planted_cmixture(rng, lead, K, N, D, cond=30.0, dtype=np.complex128):
     """Observations from K zero-mean complex Gaussians with random covariances; returns y, labels."""
     covs = hpd(rng, D, cond=cond, lead=(*lead, K))
     L = np.linalg.cholesky(covs)
-    lab = rng.integers(0, K, size=(*lead, N))
+    lab = skewed_labels(rng, lead, K, N)
     x = cnormal(rng, (*lead, N, D))
     Lsel = np.take_along_axis(L, lab[..., None, None], axis=-3) if False else None
     y = np.empty((*lead, N, D), dtype=np.complex128)
@@ -78,7 +87,7 @@ def planted_rmixture(rng, lead, K, N, D, spread=3.0, cond=10.0, dtype=np.float64
     means = rng.standard_normal((*lead, K, D)) * spread
     covs = hpd(rng, D, cond=cond, lead=(*lead, K), real=True)
     L = np.linalg.cholesky(covs)
-    lab = rng.integers(0, K, size=(*lead, N))
+    lab = skewed_labels(rng, lead, K, N)
     x = rng.standard_normal((*lead, N, D))
     y = np.empty((*lead, N, D))
     for idx in np.ndindex(*lead):
